@@ -544,9 +544,100 @@ fn check_identities(ctx: &mut Ctx, c: &IdCase) -> Outcome {
     Pass::new(true).class("identities").evals(printed.len() as u64 * 6).ok()
 }
 
+// ---- directives that cannot be evaluated --------------------------------------------------------------
+
+/// The built binary as uid 65534 on a directory that can be listed but not searched (mode 744): the
+/// entries in it are met but cannot be stat'ed, so %s %m %n %i %U %G have no value for them.  The
+/// record is then either left out or complete (every literal character of the format present, the
+/// value-less directives rendered as anything without the separator), with a diagnostic and a
+/// non-zero exit status; the records of the other entries are exact.
+#[derive(Serialize, Deserialize, Debug, Clone)]
+pub struct NoStatCase {
+    /// directive letters between the separators
+    pub letters: Vec<char>,
+    pub to_file: bool,
+}
+
+fn check_nostat(ctx: &mut Ctx, c: &NoStatCase) -> Outcome {
+    use crate::engine::proc::{find_bin, BinOpts};
+    use std::os::unix::fs::PermissionsExt;
+    ctx.fresh_case_dir();
+    std::fs::create_dir_all("c/u/noexec").unwrap();
+    std::fs::write("c/u/noexec/a", b"xx").unwrap();
+    std::fs::write("c/u/noexec/b", b"").unwrap();
+    std::fs::write("c/u/plain", b"abc").unwrap();
+    std::fs::set_permissions("c/u/noexec", std::fs::Permissions::from_mode(0o744)).unwrap();
+    std::fs::set_permissions("c", std::fs::Permissions::from_mode(0o755)).unwrap();
+    let fmt: String = format!("[%p|{}|END]\\n", c.letters.iter().map(|l| format!("%{l}")).collect::<Vec<_>>().join("|"));
+    let args: Vec<String> = vec!["c/u".into(), "-sorted".into(), "-printf".into(), fmt.clone()];
+    let o = ctx.run_bin(&find_bin(), &args, &BinOpts { uid: Some(65534), ..Default::default() });
+    let desc = format!("(uid 65534) find c/u -sorted -printf {fmt:?}\nexit {:?} signal {:?}\nstdout {:?}\nstderr {:?}", o.code, o.signal, lossy(&o.stdout), lossy(&o.stderr[..o.stderr.len().min(400)]));
+    if !o.ordinary() {
+        return fail("C16:unevaluable-directive:abnormal-termination", desc);
+    }
+    // expected records of the entries that can be examined
+    let exact = |path: &str| -> String {
+        let m = std::fs::symlink_metadata(path).unwrap();
+        let vals: Vec<String> = c.letters.iter().map(|l| match l {
+            's' => m.len().to_string(),
+            'm' => format!("{:o}", m.mode() & 0o7777),
+            'n' => m.nlink().to_string(),
+            'i' => m.ino().to_string(),
+            'U' => m.uid().to_string(),
+            'G' => m.gid().to_string(),
+            'd' => (path.matches('/').count() - 1).to_string(),
+            'f' => path.rsplit('/').next().unwrap().to_string(),
+            _ => RefEntry::type_letter(&m).to_string(),
+        }).collect();
+        format!("[{path}|{}|END]\n", vals.join("|"))
+    };
+    let out = lossy(&o.stdout);
+    let mut rest: &str = &out;
+    for path in ["c/u", "c/u/noexec"] {
+        let want = exact(path);
+        if !rest.starts_with(&want) {
+            return fail("C16:unevaluable-directive:other-record-differs", format!("{desc}\nexpected next {want:?}"));
+        }
+        rest = &rest[want.len()..];
+    }
+    let needs_stat = c.letters.iter().any(|l| "smniUG".contains(*l));
+    for path in ["c/u/noexec/a", "c/u/noexec/b"] {
+        let head = format!("[{path}|");
+        if !rest.starts_with(&head) {
+            if needs_stat {
+                continue; // record left out
+            }
+            return fail("C16:unevaluable-directive:record-missing-although-nothing-needs-the-status-record", desc);
+        }
+        // a complete record: as many separators as the format has, then END]\n
+        let Some(end) = rest.find('\n') else { return fail("C16:unevaluable-directive:record-truncated", desc) };
+        let rec = &rest[..=end];
+        if rec.matches('|').count() != c.letters.len() + 1 || !rec.ends_with("|END]\n") {
+            return fail("C16:unevaluable-directive:record-truncated", desc);
+        }
+        rest = &rest[end + 1..];
+    }
+    let want = exact("c/u/plain");
+    if rest != want {
+        return fail("C16:unevaluable-directive:other-record-differs", format!("{desc}\nexpected last {want:?}, found {rest:?}"));
+    }
+    if needs_stat && (o.code == Some(0) || o.stderr.is_empty()) {
+        return fail("C16:unevaluable-directive:not-reported", desc);
+    }
+    Pass::new(needs_stat).class("directive-without-a-value").sample(json!({"cmdline": format!("(uid 65534) find c/u -sorted -printf {fmt:?}"), "exit": o.code})).ok()
+}
+
 fn run(w: &mut Worker) {
     w.regress::<Case>("format", check);
     w.regress::<IdCase>("identities", check_identities);
+    w.regress::<NoStatCase>("no-status-record", check_nostat);
+    let mut ns: Vec<NoStatCase> = vec![];
+    for l in ['s', 'm', 'n', 'i', 'U', 'G', 'y', 'd', 'f'] {
+        ns.push(NoStatCase { letters: vec![l], to_file: false });
+        ns.push(NoStatCase { letters: vec!['y', l, 'd'], to_file: false });
+        ns.push(NoStatCase { letters: vec![l, 's'], to_file: false });
+    }
+    w.exhaustive("no-status-record", "the binary as uid 65534 on entries that cannot be stat'ed (a listable, unsearchable directory): each directive alone and between others; the record is left out or complete, with a diagnostic and a non-zero status", ns.into_iter(), check_nostat);
     let mut ids = vec![];
     for root in 0..ROOTS.len() as u8 {
         for follow in 0..3u8 {
@@ -578,6 +669,8 @@ fn run(w: &mut Worker) {
 fn replay(w: &mut Worker, sub: &str, v: Value) -> Outcome {
     if sub == "identities" {
         check_identities(&mut w.ctx, &decode(v))
+    } else if sub == "no-status-record" {
+        check_nostat(&mut w.ctx, &decode(v))
     } else {
         check(&mut w.ctx, &decode(v))
     }
